@@ -71,7 +71,9 @@ PROPS = {
                   # evaluation of the AST: a lowering that differs between the two templates shows here
                   tools=[("pvlower", 2500, 30000, [])]),
     "C11": h1prop("PigeonVerif.Properties.C11", P(["val", "errs"]),
-                  [("panic", 3000, 90000), ("blocks", 2500, 60000), ("lr", 4000, 100000), ("utf8", 500, 10000)], oracles=[orc_c11]),
+                  [("panic", 3000, 90000), ("blocks", 2500, 60000), ("lr", 4000, 100000), ("utf8", 500, 10000),
+                   # re-parsed spans with dozens of distinct code-block errors (each message once, however often it was recorded)
+                   ("memo", 1500, 30000)], oracles=[orc_c11]),
     "C12": h1prop("PigeonVerif.Properties.C12", P(["errs", "mf"]),
                   [("core", 5000, 150000), ("utf8", 1000, 30000), ("throw", 1000, 30000), ("lr", 1000, 20000),
                    ("enum", 14000, 400000)], oracles=[orc_c12],
